@@ -184,3 +184,51 @@ Proof.
     cbn [app length] in F. rewrite F. apply map_seq_nth2. exact L.
   - intros d k. rewrite H. unfold vset. rewrite zset_of_nat, !vnth_of_nat. reflexivity.
 Qed.
+
+(* updating an array in place, index by index, each cell from its own old value *)
+Fixpoint mapi_from {A : Type} (k : nat) (H : nat -> A -> A) (l : list A) : list A :=
+  match l with [] => [] | a :: l' => H k a :: mapi_from (Datatypes.S k) H l' end.
+
+Lemma nth_app_length {A : Type} (p l : list A) (d : A) : nth (length p) (p ++ l) d = nth 0 l d.
+Proof. induction p as [|a p IH]; [reflexivity|]. cbn. exact IH. Qed.
+
+Lemma update_fold {A : Type} (d : A) (H : nat -> A -> A) : forall (l p : list A),
+  fold_left (fun v k => set_nth_nat v k (H k (nth k v d))) (seq (length p) (length l)) (p ++ l) = p ++ mapi_from (length p) H l.
+Proof.
+  induction l as [|a l IH]; intros p; [reflexivity|].
+  cbn [length seq fold_left mapi_from]. rewrite nth_app_length. cbn [nth].
+  rewrite set_nth_nat_app by discriminate. cbn [tl].
+  change (p ++ H (length p) a :: l) with (p ++ [H (length p) a] ++ l). rewrite app_assoc.
+  replace (Datatypes.S (length p)) with (length (p ++ [H (length p) a])) by (rewrite app_length; cbn; lia).
+  rewrite IH. rewrite <- app_assoc. reflexivity.
+Qed.
+
+Lemma set_nth_nat_same {A : Type} (d : A) (l : list A) (k : nat) : set_nth_nat l k (nth k l d) = l.
+Proof. revert k; induction l as [|a l IH]; intros [|k]; cbn; try reflexivity. f_equal. apply IH. Qed.
+
+Lemma vset_same (N : Num) (v : list N) (k : nat) : vset N v (Z.of_nat k) (vnth N v (Z.of_nat k)) = v.
+Proof. unfold vset. rewrite zset_of_nat, vnth_of_nat. apply set_nth_nat_same. Qed.
+
+Lemma for_range_update (N : Num) (H : nat -> N -> N) (n : nat) (v : list N) (f : Z -> list N -> list N) :
+  n = length v ->
+  (forall k vals, f (Z.of_nat k) vals = vset N vals (Z.of_nat k) (H k (vnth N vals (Z.of_nat k)))) ->
+  for_range 0 (Z.of_nat n) f v = mapi_from 0 H v.
+Proof.
+  intros -> Hf. rewrite for_range_0.
+  rewrite (fold_left_ext _ (fun vals k => set_nth_nat vals k (H k (nth k vals (zero N))))).
+  - apply (update_fold (zero N) H v []).
+  - intros vals k. rewrite Hf. unfold vset. rewrite zset_of_nat, vnth_of_nat. reflexivity.
+Qed.
+
+Lemma mapi_from_combine2 {A B C : Type} (da : A) (db : B) (h : A -> B -> C -> C) :
+  forall (v : list C) (x : list A) (y : list B) (off : nat) (H : nat -> C -> C),
+  length x = length v -> length y = length v ->
+  (forall i c, i < length v -> H (off + i) c = h (nth i x da) (nth i y db) c) ->
+  mapi_from off H v = map (fun abc => h (fst (fst abc)) (snd (fst abc)) (snd abc)) (combine (combine x y) v).
+Proof.
+  induction v as [|c v IH]; intros [|a x] [|b y] off H L1 L2 Hh; try discriminate; [reflexivity|].
+  cbn [mapi_from combine map fst snd]. f_equal.
+  - rewrite <- (Nat.add_0_r off). rewrite Hh by (cbn; lia). reflexivity.
+  - apply IH; [cbn in L1; lia|cbn in L2; lia|].
+    intros i c' Hi. replace (Datatypes.S off + i) with (off + Datatypes.S i) by lia. rewrite Hh by (cbn; lia). reflexivity.
+Qed.
